@@ -193,6 +193,12 @@ def evaluate(prop, sc, want_trace=False):
                 out.probes['unsorted_listing'] = 1
             if any(len(g) >= 2 for g in gl):
                 out.probes['several_new_paths_in_one_poll'] = 1
+    nshort = sum(1 for e in ev if e[2] == 'cycle' and e[3] == 'read' and sc['source'].get('short') and e[4])
+    if nshort:
+        out.faults['short_read'] = nshort
+    napp = sum(1 for e in ev if e[2] == 'append')
+    if napp:
+        out.faults['chunked_append'] = napp
     out.violations = V
     out.nontrivial = bool(out.probes)
     if want_trace:
